@@ -32,6 +32,8 @@ const (
 	ekOtherChain         // signed for another chain id
 	ekRCDE               // signed with an RCD-e key (valid only above the activation)
 	ekExtraExtID         // one more external id than signatures need
+	ekTwoInputsOneSig    // two transactions with different input addresses, signed by the first one's key only
+	ekTwoInputsTwoSigs   // the same, signed by both keys (still not a legal batch: one input address per batch)
 	ekKinds
 )
 
@@ -43,6 +45,14 @@ type vrtEntrySpec struct {
 	valid    bool // spec: well-formed, authorised, allowed at this height
 	from     factom.FAAddress
 	fromKey  int
+}
+
+// vrtRawBatch has the JSON shape of a batch without TransactionBatch's marshal-time validation
+// (needed to write batches to the chain that the daemon must reject).
+type vrtRawBatch struct {
+	Version      uint               `json:"version"`
+	Transactions []fat2.Transaction `json:"transactions"`
+	Metadata     []byte             `json:"metadata,omitempty"`
 }
 
 func vrtTransferBatch(from, to factom.FAAddress, amt uint64) *fat2.TransactionBatch {
@@ -131,6 +141,18 @@ func vrtMakeEntry(kind int, hash *factom.Bytes32, blockTime int64, height uint32
 		e.Content = vrt.Blob(batch)
 		vrt.SignEntry(&e, salt, []int{0}, []bool{false}, 1, false)
 		sp.valid = false
+	case ekTwoInputsOneSig, ekTwoInputsTwoSigs:
+		// tx[0] spends the signer's own funds, tx[1] spends somebody else's (B's) towards the signer
+		two := vrtTransferBatch(A, B, amt)
+		steal := vrtTransferBatch(B, A, vrt.URange("stolen", 0, vrtMaxBal/4))
+		two.Transactions = append(two.Transactions, steal.Transactions[0])
+		e.Content = vrt.Blob(vrtRawBatch{Version: 1, Transactions: two.Transactions})
+		if kind == ekTwoInputsOneSig {
+			vrt.SignEntry(&e, salt, []int{0}, []bool{false}, 0, false)
+		} else {
+			vrt.SignEntry(&e, salt, []int{0, 1}, []bool{false, false}, 0, false)
+		}
+		sp.valid = false
 	default:
 		e.Content = vrt.Blob(batch)
 		vrt.SignEntry(&e, salt, []int{0}, []bool{false}, 0, false)
@@ -139,6 +161,8 @@ func vrtMakeEntry(kind int, hash *factom.Bytes32, blockTime int64, height uint32
 	if !inWindow {
 		sp.valid = false
 	}
+	vrt.SealEntry(&e)
+	sp.hash = e.Hash
 	return e, sp
 }
 
@@ -233,6 +257,7 @@ func VerifTxBlock() {
 		}
 		var sp vrtEntrySpec
 		priorEntry, sp = vrtMakeEntry(k, H1, blockTime-600, height-1, amt1, B)
+		H1 = priorEntry.Hash
 		vrt.Assume(sp.valid)
 		if prior == 1 {
 			vrt.Assume(amt1 <= balA)
